@@ -116,9 +116,9 @@ void BusModel::route(int c, const Msg& m, Out& out) {
   std::string dest = m.fstr(F_DESTINATION);
   int addressed = primary(dest);
   if (addressed < 0) {
-    // undeliverable.  [property C05] a method call earns exactly one error carrying its serial; [U] for other types / NO_REPLY_EXPECTED
+    // undeliverable.  [property C05] a method call earns exactly one error carrying its serial; [U] for other message types
     Exp e = exp_error(conns[c].unique, m.serial, ""); e.any_errname = true;
-    if (m.type != T_CALL || (m.flags & 1)) e.optional = true;
+    if (m.type != T_CALL) e.optional = true;   // (the property makes no exception for calls flagged NO_REPLY_EXPECTED, and the bus answers them too)
     emit_to(c, e, out);
     // [U] whether eavesdroppers see an undeliverable message
     for (int r : rule_recipients(st, c, -1)) { Exp x = exp_forward(st); x.optional = true; out[r].push_back(x); }
